@@ -46,3 +46,36 @@ Definition triple_compare (a b : N * N * list N) : comparison :=
 
 Definition cmp_to_N (c : comparison) : N :=
   match c with Lt => 0 | Eq => 1 | Gt => 2 end.
+
+(* ---- the mutable event builder (inter/dag.MutableBaseEvent): the id is (re)stamped with the
+   epoch and Lamport time current at the moment of SetID / Build, whatever happened before ---- *)
+Record builder := { b_epoch : N; b_lamport : N; b_id : list N }.
+Inductive bop := BSetEpoch (e : N) | BSetLamport (l : N) | BSetID (t : list N) | BBuild (t : list N).
+Definition builder0 : builder := {| b_epoch := 0; b_lamport := 0; b_id := repeat 0 32 |}.
+
+(* returns the new builder and the id observed (ID() after SetID; Build(..).ID()) *)
+Definition bstep (b : builder) (o : bop) : builder * option (list N) :=
+  match o with
+  | BSetEpoch e => ({| b_epoch := e; b_lamport := b_lamport b; b_id := b_id b |}, None)
+  | BSetLamport l => ({| b_epoch := b_epoch b; b_lamport := l; b_id := b_id b |}, None)
+  | BSetID t => let id := event_id (b_epoch b) (b_lamport b) t in
+                ({| b_epoch := b_epoch b; b_lamport := b_lamport b; b_id := id |}, Some id)
+  | BBuild t => (b, Some (event_id (b_epoch b) (b_lamport b) t))   (* Build works on a copy *)
+  end.
+
+Fixpoint brun (b : builder) (ops : list bop) : list (list N) :=
+  match ops with
+  | [] => []
+  | o :: r => let '(b', out) := bstep b o in
+              match out with Some id => id :: brun b' r | None => brun b' r end
+  end.
+
+(* specification: the (epoch, lamport) current when each id was produced *)
+Fixpoint bspec (e l : N) (ops : list bop) : list (N * N) :=
+  match ops with
+  | [] => []
+  | BSetEpoch e' :: r => bspec e' l r
+  | BSetLamport l' :: r => bspec e l' r
+  | BSetID _ :: r => (e, l) :: bspec e l r
+  | BBuild _ :: r => (e, l) :: bspec e l r
+  end.
